@@ -5,9 +5,9 @@ from props import factor_common as fc
 
 PID = "C05"
 GEN = ["primality"]
-LEAN = ["Ymq.Props.C05"]
+LEAN = ["Ymq.Props.C05", "Ymq.Props.C05Sched"]
 AUDIT = "Ymq.Audit.C05"
-THEOREMS = ['Ymq.C05.abort_never_wrong_product', 'Ymq.C05.abort_consistent', 'Ymq.C05.abort_stops']
+THEOREMS = ['Ymq.C05.abort_never_wrong_product', 'Ymq.C05.abort_consistent', 'Ymq.C05.abort_stops', 'Ymq.C05.abort_bounded', 'Ymq.C05.abort_before_start']
 PROFILES = ["release", "chk"]
 TIMEOUT = 120.0
 LAT_BOUND_MS = 15000
@@ -15,7 +15,9 @@ RULE = ("abort predicate flipping at seeded instants: by poll count (0,1,2,3,5,1
         "selectors auto/qs/mpqs/siqs/ecm/ecm128/pm1, single and multi-threaded, on 60-150 bit inputs whose run is long enough for "
         "the flip to land before/between/inside stages; checked: returns, no crash, product = n, latency after the first `true` poll "
         f"<= {LAT_BOUND_MS} ms; non-trivial = the predicate was polled at least once; distinct by request line")
-MODELLED = ["the abort poll of factor_impl (lib.rs:431) and the aborted-sieve path (empty divisor list => n pushed unsplit) in "
+MODELLED = ["the unit-start polls `done || abort` of the multi-threaded sieves / ECM as `Act.poll` of the protocol model "
+            "(Ymq/Model/Sched.lean): abort_bounded = after the predicate answers true each worker performs at most the rest of its "
+            "current work unit, for every interleaving", "the abort poll of factor_impl (lib.rs:431) and the aborted-sieve path (empty divisor list => n pushed unsplit) in "
             "Ymq/Model/Factor.lean; the abort predicate is an arbitrary stateful oracle, so every flip instant is covered by the theorem"]
 UNMODELLED = ["poll points inside the sieves / ECM (siqs.rs, mpqs.rs, qsieve.rs, ecm.rs) appear in the model only through their result "
               "(empty divisor list / None); wall-clock latency is a runtime behaviour and is measured, not proved",
